@@ -132,6 +132,10 @@ def _parse_atom_attributes(
         RAD: _parse_atom_property_values(line, "RAD"),
     }
     for key, val in optional_attrs.items():
+        if key != CHG and val and val[-1] < 0:
+            raise MolfileParserException(
+                f'Negative value {val[-1]} of "{key.upper()}" for atom {line[2]}'
+            )
         # An explicitly written default (CHG=0, RAD=0, MASS=0) means "not set".
         if val and val[-1] != 0:
             atom_attrs[key] = val[-1]
